@@ -366,19 +366,28 @@ class ScenarioGenerator:
         # or >= 1 OS agnostic privesc
         # This ensures we can make it possible to get ROOT access on a
         # host, independendent of the exploit the host is vulnerable too
-        if num_privesc < len(self.os):
-            os_choices = [None]
-            os_choices.extend(
-                list(np.random.choice(possible_os, num_privesc-1))
-            )
-        else:
-            while True:
+        # Each privesc has a unique (process, OS) pair, so an OS (or None)
+        # can be chosen for at most len(self.processes) privescs.
+        max_per_os = len(self.processes)
+        assert num_privesc <= max_per_os * len(possible_os), \
+            ("Number of privilege escalation actions must be <= "
+             "num_processes * (num_os + 1)")
+        while True:
+            if num_privesc < len(self.os):
+                os_choices = [None]
+                os_choices.extend(
+                    list(np.random.choice(possible_os, num_privesc-1))
+                )
+            else:
                 os_choices = list(
                     np.random.choice(possible_os, num_privesc)
                 )
-                if None in os_choices \
-                   or all([os in os_choices for os in self.os]):
-                    break
+            if any([os_choices.count(os) > max_per_os for os in possible_os]):
+                # too few processes for this choice, so would never finish
+                continue
+            if None in os_choices \
+               or all([os in os_choices for os in self.os]):
+                break
 
         # we create one exploit per service
         privescs_added = 0
